@@ -81,6 +81,7 @@ type genState struct {
 	nftOwner map[uint64]int
 	nftAddr  string
 	jailed   map[int]bool
+	followUps []Event // emitted right after the next begin-block: the actions that would profit from a shadow write
 }
 
 type genTenant struct {
@@ -385,6 +386,38 @@ func (g *genState) settlementMsg() *Msg {
 	}
 }
 
+// a tenant-changing message by a real admin that is going to be rolled back or only simulated, and (queued for the
+// same or the next block) the action that would profit from it if it left a trace
+func (g *genState) shadowWrite() []Msg {
+	r := g.r
+	t := g.pickTenant()
+	adm := g.userFor(t.id)
+	if len(t.admins) > 0 {
+		adm = t.admins[r.Intn(len(t.admins))]
+	}
+	switch r.Intn(3) {
+	case 0:
+		x := g.stranger()
+		g.followUps = append(g.followUps, Event{Kind: "tx", Msgs: []Msg{{Kind: "update_period", Sender: x, Tid: t.id, Period: 1}}})
+		return []Msg{{Kind: "add_admin", Sender: adm, Tid: t.id, Admin: x}}
+	case 1:
+		if len(t.admins) > 1 {
+			b := t.admins[(r.Intn(len(t.admins)))]
+			if b != adm {
+				g.followUps = append(g.followUps, Event{Kind: "tx", Msgs: []Msg{{Kind: "update_period", Sender: b, Tid: t.id, Period: t.period}}})
+				return []Msg{{Kind: "remove_admin", Sender: adm, Tid: t.id, Admin: b}}
+			}
+		}
+		fallthrough
+	default:
+		return []Msg{{Kind: "update_period", Sender: adm, Tid: t.id, Period: 1}}
+	}
+}
+
+func (g *genState) stranger() int {
+	return g.users[len(g.users)-1-g.r.Intn(2)]
+}
+
 // optimistic tracking (assumes success when the sender is an admin); only steers generation
 func (g *genState) track(m *Msg) {
 	switch m.Kind {
@@ -609,7 +642,29 @@ func (g *genState) block() {
 			g.jailed[v] = true
 		}
 	}
-	g.h.Events = append(g.h.Events, Event{Kind: "begin", Envs: envs})
+	var sims []SimTx
+	if len(g.tenants) > 0 && !g.p.Isolation && r.Chance(10) {
+		sims = append(sims, SimTx{Msgs: g.shadowWrite()})
+	}
+	if g.p.Oracle && g.nVals > 0 && r.Chance(6) {
+		// a consent that is only simulated must not make its feeder a feeder
+		v := r.Intn(g.nVals)
+		x := g.stranger()
+		if f, ok := g.feeders[v]; !(ok && f == x) && x != v {
+			sims = append(sims, SimTx{Oracle: true, Msgs: []Msg{{Kind: "consent", Val: v, Feeder: x}}})
+			rid, _, _ := g.roundOf(g.height)
+			g.followUps = append(g.followUps, Event{Kind: "otx", Msgs: []Msg{{Kind: "prevote", Feeder: x, Val: v, Commit: "5A5A", Round: rid}}})
+		}
+	}
+	g.h.Events = append(g.h.Events, Event{Kind: "begin", Envs: envs, Sims: sims})
+	if len(g.tenants) > 0 && !g.p.Isolation && r.Chance(8) {
+		// a transaction whose first message would change a tenant and whose last message fails: all of it is rolled back
+		ms := g.shadowWrite()
+		ms = append(ms, Msg{Kind: "cancel", Sender: ms[0].Sender, Tid: ms[0].Tid, Req: "no-such-request"})
+		g.h.Events = append(g.h.Events, Event{Kind: "tx", Msgs: ms})
+	}
+	g.h.Events = append(g.h.Events, g.followUps...)
+	g.followUps = nil
 	ntx := r.Intn(g.p.MaxTx + 1)
 	for i := 0; i < ntx; i++ {
 		n := 1
